@@ -33,13 +33,13 @@ def main():
     res = {"confirmed": {}, "checks": {}}
     sh("git -C /repo worktree add -q --detach %s HEAD" % wt)
     try:
-        r = sh("/tmp/mutkit/run.sh %s %s" % (wt, demo))
+        r = sh("%s/tools/mutkit/run.sh %s %s" % (VERIF, wt, os.path.abspath(demo)))
         res["confirmed"]["demo_passes_without"] = r.returncode == 0
         r = sh("git -C %s apply %s" % (wt, os.path.abspath(patch)))
         res["confirmed"]["applies"] = r.returncode == 0
-        r = sh("/tmp/mutkit/tests.sh %s" % wt)
+        r = sh("%s/tools/mutkit/tests.sh %s" % (VERIF, wt))
         res["confirmed"]["suite_passes_with"] = "115 passed" in r.stdout
-        r = sh("/tmp/mutkit/run.sh %s %s" % (wt, demo))
+        r = sh("%s/tools/mutkit/run.sh %s %s" % (VERIF, wt, os.path.abspath(demo)))
         res["confirmed"]["demo_fails_with"] = r.returncode != 0
         res["confirmed"]["demo_output_with"] = r.stdout[-600:]
     finally:
